@@ -83,3 +83,18 @@ Proof.
   rewrite (firstn_app_exact n _ nonce_len Ln), (skipn_app_exact n _ nonce_len Ln), Hn. reflexivity.
 Qed.
 End CryptoProofs.
+
+(* ---- key derivation: the whole passphrase takes part ---- *)
+Section Derive.
+Variable b64 : bytes -> bytes.
+Variable salt_of : bytes -> bytes.
+Variable argon : bytes -> bytes -> bytes.
+Hypothesis b64_inj : forall x y, b64 x = b64 y -> x = y.
+Hypothesis argon_inj : forall p s p' s', argon p s = argon p' s' -> p = p'.
+Theorem derive_key_injective master master' context :
+  derive_key b64 salt_of argon master context = derive_key b64 salt_of argon master' context -> master = master'.
+Proof.
+  unfold derive_key. intros H. apply argon_inj, b64_inj in H. exact (app_inv_head _ _ _ H).
+Qed.
+End Derive.
+
